@@ -287,6 +287,7 @@ def run_once(spec, balancer=None):
     res["events"] = len(sim.log)
     res["bytes_written"] = sim.bytes_written
     res["fs_ops"] = sim.ordinals.get("fs_op", 0) if sim.crash_op is not None else None
+    res["fs_write_calls"] = sim.ordinals.get("fs_write_call", 0) if sim.crash_wcall is not None else None
     res["jobs"] = _jsonable([[e[1], list(e[2])] for e in sim.log if e and e[0] == "job"])
     if spec.get("tap"):
         res["taps"] = _jsonable(sim.taps.get("records", []))
